@@ -19,9 +19,9 @@ class Refused(Exception):
 
 def expected(case):
     t0, dt = case['t0'], case['dt']
-    rain = sorted((t0 + i * dt, v) for i, v in case['rain'])
-    et = dict((t0 + i * dt, v) for i, v in case['et'])
-    wl = sorted((t0 + off, v) for off, v in case['wl'])
+    rain = sorted((int(round(t0 + i * dt)), v) for i, v in case['rain'])
+    et = dict((int(round(t0 + i * dt)), v) for i, v in case['et'])
+    wl = sorted((int(round(t0 + off)), v) for off, v in case['wl'])
     if len(wl) < 2:
         raise Refused('fewer than two water-level samples')
     wt = [t for t, _ in wl]
